@@ -135,11 +135,11 @@ class C04(TraceCheck):
                                         {"k": "read", "r0": 0, "r1": h + 3, "c0": 0, "c1": w}]}
         # column stops past the array's width (a[r, c0:c0 + k] with the region hanging over the right edge, the stop
         # as far past the width as the start is from column 0 included): the region is what exists of it
-        for (h, w) in [(1, 2), (2, 3), (1, 4)]:
-            vals = rowvals(w)
+        for (h, w) in [(1, 2), (2, 3), (1, 4), (2, 0), (0, 0), (1, 1)]:
+            vals = rowvals(max(w, 2))
             for prefill in (None, "full", "short"):
                 pre = []
-                if prefill:
+                if prefill and w:
                     txt = "p" * w if prefill == "full" else "p" * max(1, w - 1)
                     pre = [{"k": "assign", "r0": 0, "r1": h, "c0": 0, "c1": len(txt), "block": [srow(txt)] * h, "bk": "list", "form": "slice2"}]
                 for r0 in range(0, h + 1):
